@@ -92,7 +92,33 @@ func writeSelfSignedCert(dir string) (string, string, error) {
 	return cp, kp, nil
 }
 
-func workerConf(p Ports, dir, cert, key string, moq bool, tlsOn bool) string {
+// workerKind selects the configuration of a worker.
+//   - Open=false ("closed" world): no client of the driver is ever authorized.
+//   - Open=true ("open" world): anonymous clients may READ (not publish) the path openReadPath, on which a publisher
+//     inside the worker keeps a live two-track stream (H264 + Opus), and may PUBLISH and read on every path below
+//     openPubPrefix. Everything else is as in the closed world (API, metrics, pprof, playback need the secret).
+//   - TLS: 0 = no TLS listener, 1 = RTSPS only (two inotify instances), 2 = RTSPS + RTMPS + MoQ.
+type workerKind struct {
+	Open bool
+	TLS  int
+}
+
+func (k workerKind) String() string {
+	w := "closed"
+	if k.Open {
+		w = "open"
+	}
+	return fmt.Sprintf("%s/tls%d", w, k.TLS)
+}
+
+const (
+	openReadPath  = "live"
+	openPubPrefix = "pub/"
+)
+
+func workerConf(p Ports, dir, cert, key string, kind workerKind) string {
+	tlsOn := kind.TLS == 2
+	moq := kind.TLS == 2 && workerMoQFlag
 	y := ""
 	add := func(f string, a ...any) { y += fmt.Sprintf(f, a...) + "\n" }
 	add("logLevel: error")
@@ -108,6 +134,19 @@ func workerConf(p Ports, dir, cert, key string, moq bool, tlsOn bool) string {
 	for _, a := range []string{"publish", "read", "playback", "api", "metrics", "pprof"} {
 		add("      - action: %s", a)
 	}
+	if kind.Open {
+		// the default configuration lets anyone publish and read everywhere; here anyone may read one path with a
+		// live stream and publish/read below one prefix
+		add("  - user: any")
+		add("    ips: []")
+		add("    permissions:")
+		add("      - action: read")
+		add("        path: %s", openReadPath)
+		add("      - action: publish")
+		add("        path: \"~^%s\"", openPubPrefix)
+		add("      - action: read")
+		add("        path: \"~^%s\"", openPubPrefix)
+	}
 	add("api: yes")
 	add("apiAddress: %s", p.addr(pAPI))
 	add("metrics: yes")
@@ -118,7 +157,7 @@ func workerConf(p Ports, dir, cert, key string, moq bool, tlsOn bool) string {
 	add("playbackAddress: %s", p.addr(pPlayback))
 	add("rtsp: yes")
 	add("rtspTransports: [udp, tcp]")
-	if tlsOn {
+	if kind.TLS >= 1 {
 		add("rtspEncryption: optional")
 	} else {
 		add("rtspEncryption: \"no\"")
@@ -144,6 +183,14 @@ func workerConf(p Ports, dir, cert, key string, moq bool, tlsOn bool) string {
 	add("rtmpServerCert: %s", cert)
 	add("hls: yes")
 	add("hlsAddress: %s", p.addr(pHLS))
+	if kind.Open {
+		// the muxer of the live path exists from the start and has a playlist after about a second
+		add("hlsAlwaysRemux: yes")
+		add("hlsSegmentCount: 7")
+		add("hlsSegmentDuration: 200ms")
+		add("hlsPartDuration: 100ms")
+		add("webrtcHandshakeTimeout: 3s")
+	}
 	add("webrtc: yes")
 	add("webrtcAddress: %s", p.addr(pWebRTC))
 	add("webrtcLocalUDPAddress: %s", p.addr(pICEUDP))
@@ -171,7 +218,10 @@ func workerConf(p Ports, dir, cert, key string, moq bool, tlsOn bool) string {
 
 // workerMain never returns normally: it serves until it is killed (or until the server code kills the process,
 // which is what the driver is looking for).
-func workerMain(base int, dir string, moq bool, tlsOn bool, memLimitMB int) {
+var workerMoQFlag = true
+
+func workerMain(base int, dir string, moq bool, kind workerKind, memLimitMB int) {
+	workerMoQFlag = moq
 	if memLimitMB > 0 {
 		lim := uint64(memLimitMB) << 20
 		_ = syscall.Setrlimit(syscall.RLIMIT_AS, &syscall.Rlimit{Cur: lim, Max: lim})
@@ -183,7 +233,7 @@ func workerMain(base int, dir string, moq bool, tlsOn bool, memLimitMB int) {
 		os.Exit(3)
 	}
 	cf := filepath.Join(dir, "mediamtx.yml")
-	if err = os.WriteFile(cf, []byte(workerConf(p, dir, cert, key, moq && tlsOn, tlsOn)), 0o600); err != nil {
+	if err = os.WriteFile(cf, []byte(workerConf(p, dir, cert, key, kind)), 0o600); err != nil {
 		fmt.Println("WORKER-STARTFAIL conf:", err)
 		os.Exit(3)
 	}
@@ -195,6 +245,12 @@ func workerMain(base int, dir string, moq bool, tlsOn bool, memLimitMB int) {
 	if !ok {
 		fmt.Println("WORKER-STARTFAIL core.New")
 		os.Exit(3)
+	}
+	if kind.Open {
+		if err = startLivePublisher(p); err != nil {
+			fmt.Println("WORKER-STARTFAIL live publisher:", err)
+			os.Exit(3)
+		}
 	}
 	fmt.Println("WORKER-READY")
 	// the parent closes our stdin when it wants us gone (also covers a parent that died)
